@@ -293,6 +293,30 @@ int main(int argc, char** argv)
       return run_state(t, cfg1[k / 4], (k & 1) != 0, int((k >> 1) & 1), c);
    }, [&](uint64_t idx, uint64_t) { TinyLP t; lpAt(idx / NC, stride2, t); uint64_t k = idx % NC; return t.str() + "#" + g_cs.str(cfg1[k / 4]) + "#" + std::to_string(k & 1) + "," + std::to_string((k >> 1) & 1); }, o,
    [&](uint64_t idx, uint64_t) { uint64_t k = idx % NC; return "@" + g_cs.str(cfg1[k / 4]); });
+   {
+      // (2b) the same round trip on LPs that make the writers take their other branches: an appended empty boxed column with zero cost (only written because
+      // writeState passes writeZeroObjective = true) and one row multiplied by 8 (the LP in the solver is really scaled after the solve, so the writer works on an
+      // unscaled copy); default configuration and simplifier off
+      static std::vector<ConfigSpace::Cfg> cfgB;
+      cfgB = {g_cs.parse("default"), g_cs.parse("simplifier=0"), g_cs.parse("scaler=0")};
+      auto shaped = [&](uint64_t k, TinyLP & t) -> bool
+      {
+         if(!lpAt(k, stride2, t)) return false;
+         for(int i = 0; i < t.m; ++i) t.A[i].push_back(0.0);
+         t.c.push_back(0.0); t.lo.push_back(0.0); t.up.push_back(5.0); t.n += 1;
+         if(t.m > 0) { for(int j = 0; j < t.n; ++j) t.A[0][j] *= 8; if(t.lhs[0] > -INF) t.lhs[0] *= 8; if(t.rhs[0] < INF) t.rhs[0] *= 8; }
+         return true;
+      };
+      uint64_t NB = cfgB.size() * 4;
+      rep.phase("state files: LPs with an empty zero-cost column and a scaled row x {default, no simplifier, no scaler} x real/rational x names", (fs.total / stride2) * NB, [&](uint64_t idx, int, Ctx & c) -> uint64_t
+      {
+         TinyLP t;
+         if(!shaped(idx / NB, t)) return 0;
+         uint64_t k = idx % NB;
+         return run_state(t, cfgB[k / 4], (k & 1) != 0, int((k >> 1) & 1), c);
+      }, [&](uint64_t idx, uint64_t) { TinyLP t; shaped(idx / NB, t); uint64_t k = idx % NB; return t.str() + "#" + g_cs.str(cfgB[k / 4]) + "#" + std::to_string(k & 1) + "," + std::to_string((k >> 1) & 1); }, o,
+      [&](uint64_t idx, uint64_t) { uint64_t k = idx % NB; return "@" + g_cs.str(cfgB[k / 4]) + "+empty-zero-cost-column"; });
+   }
    auto& C = rep.all.counters;
    rep.evaluations = C["basis_files_read"] + C["states_written"];
    rep.rule = "(1) every stride-th canonical LP x {LP in the solver, LP outside} x {default, user names} x cpxFormat x (basis from the solve + every regular basis x every nonbasic placement): "
